@@ -656,6 +656,8 @@ class Exec(Engine):
             self.spec = True
             try:
                 v = self.ev1(tree, st)
+            except UnknownName:
+                continue   # the instance speaks about a local of another path: nothing is assumed on this one
             finally:
                 self.spec = saved
             st.assume(self.truth(v))
